@@ -131,6 +131,20 @@ type Op struct {
 	Par  []Op   `json:"par,omitempty"`
 	Seed uint64 `json:"seed,omitempty"`
 	Pct  int    `json:"pct,omitempty"`
+	// par: request-side lookups in flight at the same time as the registry
+	// operations (each one more task of the same phase).
+	Look []Look `json:"look,omitempty"`
+}
+
+// Look is one request-side lookup of a concurrent phase.
+type Look struct {
+	// Kind: "find" = Storage.Find(ID) for any identifier text; "loose" =
+	// Storage.FindLoose(ID, ID) for a source address; "settings" = the effective
+	// filtering settings of a request from address ID with ClientID CID
+	// (DNSFilter.ApplyAdditionalFiltering -> Storage.ApplyClientFiltering).
+	Kind string `json:"k"`
+	ID   string `json:"id"`
+	CID  string `json:"cid,omitempty"`
 }
 
 // Scenario is one case.
@@ -186,38 +200,151 @@ func genSpec(t *rapid.T) *Spec {
 	return s
 }
 
-// genPar draws two or three registry operations that the administrator(s)
-// issue at the same time: any mixture of add / update / remove, most of them
-// aimed at one client (the same name as target, as new name, or both), the
-// rest anywhere.
-func genPar(t *rapid.T) Op {
+// genPar draws one concurrent phase: two or three registry operations that
+// the administrator(s) issue at the same time — any mixture of add / update /
+// remove, most of them aimed at one client (the same name as target, as new
+// name, or both), the rest anywhere — and up to three request-side lookups in
+// flight meanwhile.  gm is the generator's own copy of the reference model
+// (registry and lease table as the history so far leaves them, leases taken as
+// static): it only aims the draws — at a client that exists, at a device (a
+// source address) that is attributed to it, at updates that identify the same
+// device by another of its identifiers (its address, a network around it, the
+// MAC of its lease, a ClientID) — and decides nothing.
+func genPar(t *rapid.T, gm *model, leaseText map[string]string) Op {
 	op := Op{Kind: "par", Seed: rapid.Uint64().Draw(t, "par_seed"), Pct: rapid.SampledFrom([]int{20, 50, 80}).Draw(t, "par_pct")}
-	focus := rapid.SampledFrom(names).Draw(t, "par_focus")
+	var existing []string
+	for _, n := range names {
+		if _, ok := gm.clients[n]; ok {
+			existing = append(existing, n)
+		}
+	}
+	// Source addresses that are attributed through the MAC of their lease.
+	var leaseDevs []string
+	for _, ip := range srcIPs {
+		if _, how := gm.attribute("", netip.MustParseAddr(ip)); how == "mac" {
+			leaseDevs = append(leaseDevs, ip)
+		}
+	}
+	var focus string
+	switch k := rapid.IntRange(0, 9).Draw(t, "par_focus_kind"); {
+	case k < 5 && len(leaseDevs) > 0:
+		// The owner of a device that is known through its lease.
+		focus, _ = gm.attribute("", netip.MustParseAddr(rapid.SampledFrom(leaseDevs).Draw(t, "par_focus_lease_dev")))
+	case k < 8 && len(existing) > 0:
+		focus = rapid.SampledFrom(existing).Draw(t, "par_focus_existing")
+	default:
+		focus = rapid.SampledFrom(names).Draw(t, "par_focus")
+	}
 	pick := func(label string) string {
 		if rapid.IntRange(0, 9).Draw(t, label+"_on_focus") < 7 {
 			return focus
 		}
 		return rapid.SampledFrom(names).Draw(t, label)
 	}
-	for i, n := 0, rapid.SampledFrom([]int{2, 2, 2, 3}).Draw(t, "par_n"); i < n; i++ {
+	// The device of the phase: mostly a source address that the registry
+	// attributes to the focus client, preferably through the MAC of its lease.
+	var mine, byMAC []string
+	for _, ip := range srcIPs {
+		if n, how := gm.attribute("", netip.MustParseAddr(ip)); n != "" && n == focus {
+			mine = append(mine, ip)
+			if how == "mac" {
+				byMAC = append(byMAC, ip)
+			}
+		}
+	}
+	var dev string
+	switch k := rapid.IntRange(0, 9).Draw(t, "par_dev_kind"); {
+	case k < 6 && len(byMAC) > 0:
+		dev = rapid.SampledFrom(byMAC).Draw(t, "par_dev_mac")
+	case k < 8 && len(mine) > 0:
+		dev = rapid.SampledFrom(mine).Draw(t, "par_dev_mine")
+	default:
+		dev = rapid.SampledFrom(srcIPs).Draw(t, "par_dev")
+	}
+	// The identifiers by which an administrator may describe that device.
+	devAddr := netip.MustParseAddr(dev)
+	devIDs := []string{dev}
+	for _, n := range netIDs {
+		if netip.MustParsePrefix(n).Contains(devAddr.WithZone("")) {
+			devIDs = append(devIDs, n)
+		}
+	}
+	if mac, ok := leaseText[dev]; ok {
+		devIDs = append(devIDs, mac)
+	}
+	devIDs = append(devIDs, rapid.SampledFrom(cidIDs).Draw(t, "par_dev_cid"))
+	spec := func(name string) *Spec {
+		sp := genSpec(t)
+		if name != "" {
+			sp.Name = name
+		}
+		if rapid.Bool().Draw(t, "par_reidentify") {
+			sp.IDs = rapid.SliceOfNDistinct(rapid.SampledFrom(devIDs), 1, 2, rapid.ID[string]).Draw(t, "par_dev_ids")
+		}
+		return sp
+	}
+	for i, n := 0, rapid.SampledFrom([]int{1, 2, 2, 2, 3}).Draw(t, "par_n"); i < n; i++ {
 		var sub Op
 		switch rapid.SampledFrom([]string{"add", "update", "update", "update", "remove"}).Draw(t, "par_kind") {
 		case "add":
-			sub = Op{Kind: "add", Spec: genSpec(t)}
+			name := ""
 			if rapid.Bool().Draw(t, "par_add_focus") {
-				sub.Spec.Name = focus
+				name = focus
 			}
+			sub = Op{Kind: "add", Spec: spec(name)}
 		case "update":
-			sub = Op{Kind: "update", Name: pick("par_target"), Spec: genSpec(t)}
+			sub = Op{Kind: "update", Name: pick("par_target")}
+			name := ""
 			if rapid.IntRange(0, 9).Draw(t, "par_keep_name") < 6 {
-				sub.Spec.Name = sub.Name
+				name = sub.Name
 			}
+			sub.Spec = spec(name)
 		default:
 			sub = Op{Kind: "remove", Name: pick("par_target")}
 		}
 		op.Par = append(op.Par, sub)
 	}
+	nLook := rapid.SampledFrom([]int{0, 1, 1, 2, 2, 3}).Draw(t, "par_n_look")
+	if len(op.Par) == 1 && nLook == 0 {
+		nLook = 1
+	}
+	for i := 0; i < nLook; i++ {
+		lk := Look{Kind: rapid.SampledFrom([]string{"settings", "settings", "settings", "find", "loose"}).Draw(t, "look_kind")}
+		onDev := rapid.IntRange(0, 9).Draw(t, "look_on_dev") < 7
+		switch {
+		case onDev:
+			lk.ID = dev
+		case lk.Kind == "find":
+			lk.ID = rapid.SampledFrom(lookupIDs()).Draw(t, "look_id")
+		default:
+			lk.ID = rapid.SampledFrom(srcIPs).Draw(t, "look_ip")
+		}
+		if lk.Kind == "settings" && rapid.IntRange(0, 2).Draw(t, "look_has_cid") == 0 {
+			lk.CID = rapid.SampledFrom(append([]string{"nobody"}, cidIDs...)).Draw(t, "look_cid")
+		}
+		op.Look = append(op.Look, lk)
+	}
 	return op
+}
+
+// leasedIPs returns the addresses of srcIPs that have a lease according to the
+// generator's bookkeeping, in the order of srcIPs.
+func leasedIPs(leaseText map[string]string) (out []string) {
+	for _, ip := range srcIPs {
+		if _, ok := leaseText[ip]; ok {
+			out = append(out, ip)
+		}
+	}
+	return out
+}
+
+// lookupIDs is every identifier text of the universe a lookup may ask for.
+func lookupIDs() (all []string) {
+	all = append(all, cidIDs...)
+	all = append(all, "nobody")
+	all = append(all, macIDs...)
+	all = append(all, srcIPs...)
+	return all
 }
 
 // Gen draws a scenario.
@@ -228,17 +355,20 @@ func Gen(t *rapid.T, tier string) any {
 		GlobalServices: rapid.SliceOfNDistinct(rapid.SampledFrom(svcPool), 0, 2, rapid.ID[string]).Draw(t, "g_svc"),
 	}
 	sc.GlobalPause = genPause(t, "g_pause")
+	// The generator's own copy of the reference model; see genPar.
+	gm := &model{clients: map[string]*Spec{}, sc: sc, dhcp: &simDHCP{leases: map[netip.Addr]lease{}}}
+	leaseText := map[string]string{}
 	maxOps := 40
 	if tier == "thorough" {
 		maxOps = 90
 	}
 	for i, n := 0, rapid.IntRange(5, maxOps).Draw(t, "n_ops"); i < n; i++ {
 		var op Op
-		switch k := rapid.IntRange(0, 111).Draw(t, "kind"); {
-		case k >= 109:
+		switch k := rapid.IntRange(0, 120).Draw(t, "kind"); {
+		case k >= 118:
 			op = Op{Kind: "restart"}
 		case k >= 100:
-			op = genPar(t)
+			op = genPar(t, gm, leaseText)
 		case k < 22:
 			op = Op{Kind: "add", Spec: genSpec(t)}
 		case k < 37:
@@ -247,6 +377,32 @@ func Gen(t *rapid.T, tier string) any {
 			op = Op{Kind: "remove", Name: rapid.SampledFrom(names).Draw(t, "target")}
 		case k < 56:
 			op = Op{Kind: "lease", IP: rapid.SampledFrom(srcIPs[:10]).Draw(t, "lease_ip"), MAC: rapid.SampledFrom(macIDs).Draw(t, "lease_mac"), TTLs: rapid.SampledFrom([]int{0, 60, 3600}).Draw(t, "lease_ttl")}
+			// Half of the leases are aimed with the generator's copy of the model:
+			// the device of a known client (a MAC that a client owns) gets an
+			// address that no client claims by address or network, so that the
+			// last step of the precedence decides.
+			if rapid.Bool().Draw(t, "lease_aimed") {
+				var owned, free []string
+				for _, mac := range macIDs {
+					if gm.owner(mac) != "" {
+						owned = append(owned, mac)
+					}
+				}
+				for _, ip := range srcIPs[:10] {
+					if _, has := leaseText[ip]; has {
+						continue
+					}
+					if n, _ := gm.attribute("", netip.MustParseAddr(ip)); n == "" {
+						free = append(free, ip)
+					}
+				}
+				if len(owned) > 0 {
+					op.MAC = rapid.SampledFrom(owned).Draw(t, "lease_mac_owned")
+				}
+				if len(free) > 0 {
+					op.IP = rapid.SampledFrom(free).Draw(t, "lease_ip_free")
+				}
+			}
 		case k < 58:
 			op = Op{Kind: "unlease", IP: rapid.SampledFrom(srcIPs[:10]).Draw(t, "unlease_ip")}
 		case k < 65:
@@ -267,11 +423,29 @@ func Gen(t *rapid.T, tier string) any {
 			op = Op{Kind: "lookup", ID: id}
 		default:
 			op = Op{Kind: "query", IP: rapid.SampledFrom(srcIPs).Draw(t, "q_ip")}
+			if leased := leasedIPs(leaseText); len(leased) > 0 && rapid.IntRange(0, 3).Draw(t, "q_leased") == 0 {
+				op.IP = rapid.SampledFrom(leased).Draw(t, "q_ip_leased")
+			}
 			if rapid.IntRange(0, 2).Draw(t, "q_has_cid") == 0 {
 				op.CID = rapid.SampledFrom(append([]string{"nobody"}, cidIDs...)).Draw(t, "q_cid")
 			}
 		}
 		sc.Ops = append(sc.Ops, op)
+		switch op.Kind {
+		case "add", "update", "remove":
+			gm.serial(&op)
+		case "par":
+			for i := range op.Par {
+				gm.serial(&op.Par[i])
+			}
+		case "lease":
+			mac, _ := net.ParseMAC(op.MAC)
+			gm.dhcp.leases[netip.MustParseAddr(op.IP)] = lease{mac: mac}
+			leaseText[op.IP] = op.MAC
+		case "unlease":
+			delete(gm.dhcp.leases, netip.MustParseAddr(op.IP))
+			delete(leaseText, op.IP)
+		}
 	}
 	return sc
 }
@@ -283,7 +457,11 @@ type lease struct {
 	expiry time.Time // zero: static
 }
 
-type simDHCP struct{ leases map[netip.Addr]lease }
+type simDHCP struct {
+	leases map[netip.Addr]lease
+	// parAsks counts the questions asked by tasks of a concurrent phase.
+	parAsks int
+}
 
 func (d *simDHCP) live(ip netip.Addr) (lease, bool) {
 	l, ok := d.leases[ip]
@@ -296,6 +474,11 @@ func (d *simDHCP) live(ip netip.Addr) (lease, bool) {
 func (d *simDHCP) Leases() []*dhcpsvc.Lease   { return nil }
 func (d *simDHCP) HostByIP(netip.Addr) string { return "" }
 func (d *simDHCP) MACByIP(ip netip.Addr) net.HardwareAddr {
+	// The DHCP server takes its time to answer: during a concurrent phase the
+	// question is a point at which the other tasks may run.
+	if sched.Yield() {
+		d.parAsks++
+	}
 	if l, ok := d.live(ip); ok {
 		return l.mac
 	}
@@ -547,12 +730,7 @@ func (r *runner) checkRegistry() error {
 			return kernel.Violationf("find-by-name", "FindByName(%q) = %v, model says %v", n, ok, want)
 		}
 	}
-	var all []string
-	all = append(all, cidIDs...)
-	all = append(all, "nobody")
-	all = append(all, macIDs...)
-	all = append(all, srcIPs...)
-	for _, id := range all {
+	for _, id := range lookupIDs() {
 		if err := r.checkFind(id); err != nil {
 			return err
 		}
@@ -575,6 +753,18 @@ func (r *runner) checkFind(id string) error {
 	if got != want {
 		return kernel.Violationf("find-mismatch", "Find(%q) resolves to %q, reference model (ClientID > exact IP > most specific CIDR > MAC of the DHCP lease) says %q\nregistry:\n%s", id, got, want, r.dump())
 	}
+	if ip, err := netip.ParseAddr(id); err == nil {
+		// The lookup used for query-log entries, asked with the address as the
+		// identifier: over this universe (no two stored addresses differ in the
+		// zone only) it resolves like Find.
+		got = ""
+		if p, ok = r.n.Clients.FindLoose(ip, id); ok {
+			got = p.Name
+		}
+		if got != want {
+			return kernel.Violationf("find-loose-mismatch", "FindLoose(%s, %q) resolves to %q, reference model says %q\nregistry:\n%s", ip, id, got, want, r.dump())
+		}
+	}
 	return nil
 }
 
@@ -587,14 +777,22 @@ func svcNames(setts *filtering.Settings) []string {
 	return out
 }
 
-func (r *runner) checkSettings(cid string, addr netip.Addr) error {
-	want := r.m.effective(cid, addr)
+// settingsText is what the system makes of a request from addr with cid.
+func (r *runner) settingsText(cid string, addr netip.Addr) string {
 	setts := r.n.Filter.Settings()
 	r.n.Filter.ApplyAdditionalFiltering(addr, cid, setts)
-	ws := append([]string{}, want.services...)
+	return fmt.Sprintf("client=%q filt=%v sb=%v par=%v ss=%v svc=%v", setts.ClientName, setts.FilteringEnabled, setts.SafeBrowsingEnabled, setts.ParentalEnabled, setts.SafeSearchEnabled, svcNames(setts))
+}
+
+// text is the reference's effective settings in the form of settingsText.
+func (e effective) text() string {
+	ws := append([]string{}, e.services...)
 	sort.Strings(ws)
-	got := fmt.Sprintf("client=%q filt=%v sb=%v par=%v ss=%v svc=%v", setts.ClientName, setts.FilteringEnabled, setts.SafeBrowsingEnabled, setts.ParentalEnabled, setts.SafeSearchEnabled, svcNames(setts))
-	exp := fmt.Sprintf("client=%q filt=%v sb=%v par=%v ss=%v svc=%v", want.client, want.filt, want.sb, want.par, want.ss, ws)
+	return fmt.Sprintf("client=%q filt=%v sb=%v par=%v ss=%v svc=%v", e.client, e.filt, e.sb, e.par, e.ss, ws)
+}
+
+func (r *runner) checkSettings(cid string, addr netip.Addr) error {
+	got, exp := r.settingsText(cid, addr), r.m.effective(cid, addr).text()
 	if got != exp {
 		name, how := r.m.attribute(cid, addr)
 		return kernel.Violationf("settings-mismatch", "request from %s clientid=%q: effective settings %s; reference model (attributed to %q by %s): %s\nregistry:\n%s", addr, cid, got, name, how, exp, r.dump())
@@ -762,14 +960,69 @@ func answer(accepted bool) string {
 	return "rejected"
 }
 
-// par issues the registry operations of op at the same time: they run as
-// tasks of the seeded cooperative scheduler, interleaved at the lock
-// boundaries of the real storage.  The statement speaks of sequences of
-// operations: whatever the interleaving, what every operation was answered
-// (accepted / rejected) and the registry afterwards (the dump and every
-// lookup of checkRegistry) must be those of ONE of the serial orders of the
-// operations according to the reference model; the model goes on from the
-// order that matched.
+// lookText describes a lookup of a concurrent phase.
+func lookText(lk *Look) string {
+	switch lk.Kind {
+	case "settings":
+		return fmt.Sprintf("settings(%s cid=%q)", lk.ID, lk.CID)
+	case "loose":
+		return fmt.Sprintf("FindLoose(%s)", lk.ID)
+	default:
+		return fmt.Sprintf("Find(%s)", lk.ID)
+	}
+}
+
+// lookSystem performs the lookup against the system.
+func (r *runner) lookSystem(lk *Look) (string, error) {
+	switch lk.Kind {
+	case "find":
+		if p, ok := r.n.Clients.Find(lk.ID); ok {
+			return p.Name, nil
+		}
+		return "", nil
+	case "loose":
+		if p, ok := r.n.Clients.FindLoose(netip.MustParseAddr(lk.ID), lk.ID); ok {
+			return p.Name, nil
+		}
+		return "", nil
+	case "settings":
+		return r.settingsText(lk.CID, netip.MustParseAddr(lk.ID)), nil
+	}
+	return "", fmt.Errorf("harness: lookup kind %q", lk.Kind)
+}
+
+// lookModel is the reference's answer to the lookup in the registry state the
+// model is in.
+func (r *runner) lookModel(lk *Look) string {
+	switch lk.Kind {
+	case "settings":
+		return r.m.effective(lk.CID, netip.MustParseAddr(lk.ID)).text()
+	case "loose":
+		name, _ := r.m.attribute("", netip.MustParseAddr(lk.ID))
+		return name
+	default:
+		if ip, err := netip.ParseAddr(lk.ID); err == nil {
+			name, _ := r.m.attribute("", ip)
+			return name
+		}
+		return r.m.owner(lk.ID)
+	}
+}
+
+// par issues the registry operations of op at the same time, and with them
+// the request-side lookups of op.Look: all of them run as tasks of the seeded
+// cooperative scheduler, interleaved at the lock boundaries of the real
+// storage (and where the simulated DHCP server is asked).  The statement
+// speaks of sequences of operations: whatever the interleaving, what every
+// operation was answered (accepted / rejected) and the registry afterwards
+// (the dump and every lookup of checkRegistry) must be those of ONE of the
+// serial orders of the operations according to the reference model, and every
+// overlapped lookup must have been answered as the reference answers it in one
+// of the registry states that this serial order passes through (before the
+// first, between two, or after the last operation: "every identifier resolves
+// to the client that currently owns it", a request is judged by the registry
+// before or after an operation, never by a mixture).  The model goes on from
+// the order that matched.
 func (r *runner) par(op Op) error {
 	ctx := context.Background()
 	k := len(op.Par)
@@ -807,8 +1060,21 @@ func (r *runner) par(op Op) error {
 			return fmt.Errorf("harness: par operation %q", sub.Kind)
 		}
 	}
+	nl := len(op.Look)
+	got := make([]string, nl)
+	lerrs := make([]error, nl)
+	for j := range op.Look {
+		lk := &op.Look[j]
+		what = append(what, lookText(lk))
+		tnames = append(tnames, lk.Kind)
+		fns = append(fns, func() { got[j], lerrs[j] = r.lookSystem(lk) })
+	}
+	asks0 := r.m.dhcp.parAsks
 	res := sched.Run(op.Seed, op.Pct, tnames, fns)
 	r.c.Fault("concurrent_registry_ops")
+	if nl > 0 {
+		r.c.Fault("concurrent_lookups")
+	}
 	r.c.Probes["sched_steps"] += res.Steps
 	r.c.Probes["sched_switches"] += res.Switches
 	if res.Deadlock != "" {
@@ -816,6 +1082,12 @@ func (r *runner) par(op Op) error {
 		return kernel.Violationf("deadlock: "+res.Deadlock, "concurrent %s, schedule seed %d: every task waits for a lock:\n%s", strings.Join(what, " || "), op.Seed, res.Detail)
 	}
 	kernel.Wait()
+	for _, err := range lerrs {
+		if err != nil {
+			return err
+		}
+	}
+	r.c.Probes["par_dhcp_asked"] += r.m.dhcp.parAsks - asks0
 
 	// The serial orders according to the reference model.
 	base := r.m.clients
@@ -836,15 +1108,33 @@ func (r *runner) par(op Op) error {
 	for i := range acc {
 		answers = append(answers, answer(acc[i]))
 	}
+	for j := range got {
+		answers = append(answers, fmt.Sprintf("%q", got[j]))
+	}
 	var tried []string
 	outcomes := map[string]bool{}
-	matched := -1
+	matched, registryMatched := -1, false
 	var matchedClients map[string]*Spec
+	lookDiffer := make([]bool, nl)
 	for oi, ord := range orders(k) {
 		r.m.clients = cloneClients(base)
 		want := make([]bool, k)
+		// states[j]: the reference's answers to lookup j in the states this
+		// order passes through.
+		states := make([][]string, nl)
+		snap := func() {
+			for j := range op.Look {
+				a := r.lookModel(&op.Look[j])
+				if len(states[j]) > 0 && states[j][0] != a {
+					lookDiffer[j] = true
+				}
+				states[j] = append(states[j], a)
+			}
+		}
+		snap()
 		for _, i := range ord {
 			want[i] = r.m.serial(&op.Par[i])
+			snap()
 		}
 		outcomes[fmt.Sprint(want)+r.modelDump()] = true
 		if matched >= 0 {
@@ -868,6 +1158,15 @@ func (r *runner) par(op Op) error {
 			}
 		}
 		if why == "" {
+			registryMatched = true
+			for j := range got {
+				if !contains(states[j], got[j]) {
+					why = fmt.Sprintf("operations and registry fit, but %s was answered %q; in the states of this order the reference answers %q", what[k+j], got[j], states[j])
+					break
+				}
+			}
+		}
+		if why == "" {
 			matched, matchedClients = oi, r.m.clients
 			continue
 		}
@@ -879,7 +1178,13 @@ func (r *runner) par(op Op) error {
 	r.c.Eventf("par %s -> %s matched_order=%d steps=%d", strings.Join(what, " || "), strings.Join(answers, ","), matched, res.Steps)
 	if matched < 0 {
 		r.m.clients = base
-		return kernel.Violationf("concurrent-ops-no-serial-order", "concurrent %s (schedule seed %d, preemption %d%%) were answered %s; the answers and the registry afterwards are those of no serial order of these operations:\n%s\nregistry before:\n%s\nregistry after:\n%s",
+		class := "concurrent-ops-no-serial-order"
+		if registryMatched {
+			// The registry operations alone are serialisable; a lookup saw
+			// something that no state of such an order shows.
+			class = "concurrent-lookup-no-serial-state"
+		}
+		return kernel.Violationf(class, "concurrent %s (schedule seed %d, preemption %d%%) were answered %s; the answers and the registry afterwards are those of no serial order of these operations with every lookup answered from one of its states:\n%s\nregistry before:\n%s\nregistry after:\n%s",
 			strings.Join(what, " || "), op.Seed, op.Pct, strings.Join(answers, ","), strings.Join(tried, "\n"), before, r.dump())
 	}
 	r.m.clients = matchedClients
@@ -889,6 +1194,29 @@ func (r *runner) par(op Op) error {
 			r.c.Probe("par_op_accepted")
 		} else {
 			r.c.Probe("par_op_rejected")
+		}
+	}
+	for j := range op.Look {
+		lk := &op.Look[j]
+		r.c.Probe("par_lookup_" + lk.Kind)
+		if lookDiffer[j] {
+			r.c.Probe("par_lookup_states_differ")
+		}
+		if ip, err := netip.ParseAddr(lk.ID); err == nil {
+			cid := lk.CID
+			if lk.Kind != "settings" {
+				cid = ""
+			}
+			r.m.clients = base
+			_, how0 := r.m.attribute(cid, ip)
+			r.m.clients = matchedClients
+			_, how1 := r.m.attribute(cid, ip)
+			if how0 == "mac" || how1 == "mac" {
+				r.c.Probe("par_lookup_by_lease_mac")
+				if how0 != how1 {
+					r.c.Probe("par_lookup_lease_mac_step_changes")
+				}
+			}
 		}
 	}
 	return nil
@@ -1152,7 +1480,7 @@ var Prop = &kernel.Property{
 	ID:    "C04",
 	Level: "exploration",
 	Rule: "seeded histories (rapid) of add / update (rename, swap and drop identifiers) / remove over 5 names with identifiers from small pools (IPs, nested CIDRs /0../31 v4 and v6, MACs of 6/8/20 bytes, ClientIDs) so that clashes are frequent, interleaved with DHCP lease set/remove, clock advances past lease expiry, lookups by every identifier, effective-settings probes and real DNS requests with and without ClientID; the global and every client's own blocked services carry a pause schedule (none, whole day, or a window whose edges the clock advances of the case cross), and the effective blocked services are compared at whatever the simulated clock shows; after every op the whole registry and every identifier of the universe are compared with the map model; " +
-		"op 'par': two or three registry operations (add / update / remove, mostly on one client) run as concurrent tasks under the seeded cooperative scheduler (interleaved at lock boundaries), and their answers plus the registry afterwards must equal those of one serial order of the reference model, from which the model continues; op 'restart': the real configuration writer stores the registry (home's forConfig -> YAML file), the real parseConfig reads it back, a new node starts from those clients, and the effective settings of every (source, ClientID) and the registry must be unchanged; " +
+		"op 'par': one to three registry operations (add / update / remove, mostly on one existing client, half of the specs identifying one device — a source address attributed to that client, preferably through its lease's MAC — by another of its identifiers: address, network around it, lease MAC, ClientID) and up to three request-side lookups (Find by any identifier, FindLoose, effective settings of (address, ClientID), mostly for that device) run as concurrent tasks under the seeded cooperative scheduler (interleaved at lock boundaries and where the simulated DHCP server is asked for a MAC); the operations' answers plus the registry afterwards must equal those of one serial order of the reference model, and every lookup's answer must be the reference's answer in one of the registry states that order passes through; the model continues from that order; op 'restart': the real configuration writer stores the registry (home's forConfig -> YAML file), the real parseConfig reads it back, a new node starts from those clients, and the effective settings of every (source, ClientID) and the registry must be unchanged; " +
 		"non-trivial = at least one accepted add/update, one rejected clash and one attribution by something other than 'nobody'; distinct = distinct scenario digests",
 	Gen: Gen,
 	New: func() any { return &Scenario{} },
@@ -1163,8 +1491,9 @@ var Prop = &kernel.Property{
 	Real:        []string{"internal/client (Storage, index, Persistent)", "internal/filtering (Settings, ApplyAdditionalFiltering, blocked services)", "internal/dnsforward request pipeline (end-to-end attribution)", "dnsproxy request path"},
 	Stub:        []string{"DHCP lease table (seeded, leases expire on the simulated clock)", "upstream resolver", "client sockets", "safe-browsing / parental checkers (never block)"},
 	Assumptions: []string{"pause schedules are in UTC with the same range every weekday (zones, weekdays and DST are C18's subject); the reference reads hour/minute/second of the instant in UTC", "clients are built with Persistent.SetIDs from identifier strings, as the admin API does", "two clients may hold overlapping (non-identical) CIDRs; identical CIDRs clash"},
-	FaultKinds:  []string{"dhcp_lease_change", "dhcp_lease_expired", "concurrent_registry_ops", "restart_reload_clients"},
+	FaultKinds:  []string{"dhcp_lease_change", "dhcp_lease_expired", "concurrent_registry_ops", "concurrent_lookups", "restart_reload_clients"},
 	ProbeNames: []string{"client_added", "client_updated", "client_renamed", "client_removed", "clash_rejected", "attributed_by_clientid", "attributed_by_ip", "attributed_by_cidr", "attributed_by_mac", "attributed_to_nobody", "e2e_query",
 		"query_in_global_pause", "query_in_own_pause", "query_in_own_pause_global_list_active", "query_outside_own_pause",
-		"par_same_client", "par_orders_differ", "par_serializable", "par_op_accepted", "par_op_rejected", "sched_steps", "sched_switches", "restart_with_clients", "restart_with_mixed_opt_outs"},
+		"par_same_client", "par_orders_differ", "par_serializable", "par_op_accepted", "par_op_rejected", "sched_steps", "sched_switches",
+		"par_lookup_find", "par_lookup_loose", "par_lookup_settings", "par_lookup_states_differ", "par_lookup_by_lease_mac", "par_lookup_lease_mac_step_changes", "par_dhcp_asked", "restart_with_clients", "restart_with_mixed_opt_outs"},
 }
